@@ -150,6 +150,10 @@ def unit_listen(ephemeral, auth):
         H[('f', o, 'auth')] = VOpaque('auth', 2) if auth else NONE
         H[('f', o, 'public_port')] = VInt(pub)
         H[('f', o, 'private_key')] = NONE
+        # local_port: None, or a port the caller asked for / left over from an earlier listen()
+        H[('f', o, 'local_port')] = VUnion([(z3.Bool('local_port_preset'), VInt(z3.Int('preset_local_port'))), (z3.Not(z3.Bool('local_port_preset')), NONE)])
+        H[('f', o, 'tcp_listening_port')] = NONE
+        H[('f', o, 'tcp_endpoint')] = NONE
         H[('f', o, 'version')] = VInt(3)
         H[('f', o, 'single_hop')] = VBool(False)
         H[('f', o, 'group_readable')] = VBool(False)
